@@ -41,10 +41,317 @@ class Col(h.Collector):
 
 
 # ---------------------------------------------------------------------------------------------
+# naming dimension: how the name of a Section / Property relates to ids
+# ---------------------------------------------------------------------------------------------
+# `name` is optional in the constructors and in the setter: an object without a name of its own is named after
+# its id.  A name is content (it must survive clone / export_leaf), an id is not (fresh unless keep_id).  The
+# generator therefore varies the relation between the two for every object, at every depth.
+
+PLAIN_NAMES = ['a', 'ab', 'b']
+ODD_NAMES = ['0', ' a ', 'a/b', 'a:b', 'é ü', 'None', '..', 'A', 'name', '-1']
+
+SPELLINGS = {
+    'own-id-upper': lambda i: i.upper(),
+    'own-id-hex': lambda i: i.replace('-', ''),
+    'own-id-urn': lambda i: 'urn:uuid:' + i,
+    'own-id-braces': lambda i: '{%s}' % i,
+}
+
+NAME_MODES = ['plain', 'odd',
+              # no name of its own: the name falls back to the id
+              'unnamed', 'unnamed-oid', 'unnamed-oid-upper', 'empty-name', 'renamed-to-default',
+              # was unnamed, got another id afterwards
+              'unnamed-then-new-id',
+              # the own id in another spelling
+              'own-id-upper', 'own-id-hex', 'own-id-urn', 'own-id-braces',
+              # a uuid that is nobody's id
+              'foreign-uuid', 'foreign-uuid-upper',
+              # the id of ANOTHER object of the same document
+              'id-of-document', 'id-of-parent', 'id-of-sibling', 'id-of-child', 'id-of-other']
+
+REDUCED_MODES = ['unnamed', 'unnamed-oid', 'renamed-to-default', 'unnamed-then-new-id', 'own-id-upper',
+                 'id-of-parent', 'id-of-sibling', 'odd']
+
+
+def det_uuid(rnd):
+    return str(uuid.UUID(int=rnd.getrandbits(128), version=4))
+
+
+def uuid_like(s):
+    try:
+        return isinstance(s, str) and bool(uuid.UUID(s))
+    except Exception:
+        return False
+
+
+def name_classes(root):
+    """id(obj) -> relation between the name of obj and the ids of the tree (read from private fields)."""
+    root = root_of(root)
+    secs, props = ([], []) if isinstance(root, BaseProperty) else h.walk(root)
+    objs = secs + props
+    if isinstance(root, (BaseSection, BaseProperty)):
+        objs = [root] + objs
+    ids = {}
+    for o in [root] + objs:
+        ids.setdefault(o._id, o)
+    out = {id(root): 'n/a'} if isinstance(root, BaseDocument) else {}
+    for o in objs:
+        nm, oid = o._name, o._id
+        if nm == oid:
+            c = 'name==own-id'
+        elif uuid_like(nm):
+            canon = str(uuid.UUID(nm))
+            if canon == oid:
+                c = 'name~own-id-in-other-spelling'
+            elif nm in ids:
+                c = 'name==id-of-other-object'
+            elif canon in ids:
+                c = 'name~id-of-other-object-in-other-spelling'
+            else:
+                c = 'name-is-foreign-uuid'
+        elif nm in ODD_NAMES:
+            c = 'odd-name'
+        else:
+            c = 'plain-name'
+        out[id(o)] = c
+    return out
+
+
+def subtree_trait(node, classes):
+    """Does the tree below node hold an object whose name is id-related?"""
+    if isinstance(node, BaseProperty):
+        return False
+    secs, props = h.walk(node)
+    return any(classes.get(id(o), 'plain-name') not in ('plain-name', 'odd-name', 'n/a') for o in secs + props)
+
+
+def depth_of(n):
+    d = 0
+    while getattr(n, '_parent', None) is not None:
+        d += 1
+        n = n._parent
+    return d
+
+
+def build_named(shape, rnd, mode_of, props_per_sec=(0, 1, 2), rich=True):
+    """Document over a forest shape; mode_of(kind, k) gives the naming mode of the k-th created object
+    (Sections and Properties are counted together in creation order: a Section, its Properties, its sub-Sections)."""
+    post = []
+    counter = [0]
+
+    def nxt(kind):
+        k = counter[0]
+        counter[0] += 1
+        return mode_of(kind, k)
+
+    def ctor_name(mode, used, pool):
+        kw = {}
+        if mode in ('unnamed', 'unnamed-then-new-id'):
+            return kw
+        if mode == 'unnamed-oid':
+            return {'oid': det_uuid(rnd)}
+        if mode == 'unnamed-oid-upper':
+            return {'oid': det_uuid(rnd).upper()}
+        if mode == 'empty-name':
+            return {'name': ''}
+        name = rnd.choice(ODD_NAMES if mode == 'odd' else pool)
+        while name in used:
+            name += rnd.choice(['a', 'b', '1'])
+        used.add(name)
+        return {'name': name}
+
+    with h.quiet():
+        doc = odml.Document(author=rnd.choice([None, 'me', 'Ann B.']), version=rnd.choice([None, '1.0', 'v2']),
+                            date=rnd.choice([None, dt.date(2020, 5, 17)]))
+
+        def add(parent, forest):
+            used = set()
+            for sub in forest:
+                mode = nxt('section')
+                kw = ctor_name(mode, used, PLAIN_NAMES)
+                if rnd.random() < 0.85:
+                    kw['type'] = rnd.choice(['t', 'setup/daq', 'n.s.x'])      # else the default type
+                if rich:
+                    kw['definition'] = rnd.choice([None, 'def', ' spaced def '])
+                    kw['reference'] = rnd.choice([None, 'ref'])
+                sec = odml.Section(parent=parent, **kw)
+                post.append((sec, mode))
+                if rich and rnd.random() < 0.3:
+                    sec.sec_cardinality = rnd.choice(h.CARDS)
+                if rich and rnd.random() < 0.3:
+                    sec.prop_cardinality = rnd.choice(h.CARDS)
+                pused = set()
+                for _ in range(rnd.choice(props_per_sec)):
+                    pmode = nxt('property')
+                    pkw = ctor_name(pmode, pused, PLAIN_NAMES)
+                    dtype = rnd.choice(list(h.VALUE_POOL))
+                    vals = list(rnd.choice(h.VALUE_POOL[dtype] + [[]]))
+                    p = odml.Property(dtype=dtype, values=vals, parent=sec, **pkw)
+                    post.append((p, pmode))
+                    if rich:
+                        if rnd.random() < 0.4:
+                            p.unit = rnd.choice(['mV', 'µm', 's'])
+                        if rnd.random() < 0.3:
+                            p.uncertainty = rnd.choice([0.5, 2, 0, 0.0])
+                        if rnd.random() < 0.3:
+                            p.definition = rnd.choice(['pdef', 'Def,with "chars" <&>'])
+                        if rnd.random() < 0.2:
+                            p.reference = 'pref'
+                        if rnd.random() < 0.2:
+                            p.value_origin = 'file.dat'
+                        if rnd.random() < 0.2:
+                            p.dependency = 'dep'
+                            p.dependency_value = 'dv'
+                        if rnd.random() < 0.3:
+                            p.val_cardinality = rnd.choice(h.CARDS)
+                add(sec, sub)
+        add(doc, shape)
+
+        # second pass: names that refer to ids known only now (set through the public setter; a clash with a
+        # sibling is refused by the library and the object keeps the name it has)
+        everything = [doc] + [o for o, _ in post]
+        for o, mode in post:
+            par = o._parent
+            new = None
+            if mode == 'renamed-to-default':
+                h.call(setattr, o, 'name', None)
+            elif mode == 'unnamed-then-new-id':
+                h.call(o.new_id)
+            elif mode in SPELLINGS:
+                new = SPELLINGS[mode](o._id)
+            elif mode == 'foreign-uuid':
+                new = det_uuid(rnd)
+            elif mode == 'foreign-uuid-upper':
+                new = det_uuid(rnd).upper()
+            elif mode == 'id-of-document':
+                new = doc._id
+            elif mode == 'id-of-parent':
+                new = par._id
+            elif mode == 'id-of-sibling':
+                same = [c for c in list.__iter__(par._sections if isinstance(o, BaseSection) else par._props)
+                        if c is not o]
+                other = [c for c in list.__iter__(getattr(par, '_props', []) if isinstance(o, BaseSection)
+                                                  else par._sections)]
+                cands = same or other
+                new = cands[0]._id if cands else doc._id
+            elif mode == 'id-of-child':
+                kids = [] if isinstance(o, BaseProperty) else \
+                    list(list.__iter__(o._sections)) + list(list.__iter__(o._props))
+                new = kids[0]._id if kids else par._id
+            elif mode == 'id-of-other':
+                new = rnd.choice([x for x in everything if x is not o])._id
+            if new is not None:
+                h.call(setattr, o, 'name', new)
+    return doc
+
+
+FORMATS = ['XML', 'JSON', 'YAML']
+
+
+def via_file(doc, fmt, tag='load'):
+    """Save the document and load it again (real files below .work); None when the library refuses."""
+    d = os.path.join(WORK, '%s-%d' % (tag, os.getpid()))
+    os.makedirs(d, exist_ok=True)
+    path = os.path.join(d, 'doc.' + fmt.lower())
+    try:
+        kind, _ = h.call(odml.save, doc, path, fmt)
+        if kind == 'exc':
+            return None
+        kind, res = h.call(odml.load, path, fmt)
+        return res if kind == 'ret' and isinstance(res, BaseDocument) else None
+    finally:
+        if os.path.exists(path):
+            os.remove(path)
+
+
+def cleanup_work():
+    for tag in ('load', 'tpl'):
+        shutil.rmtree(os.path.join(WORK, '%s-%d' % (tag, os.getpid())), ignore_errors=True)
+    try:
+        os.rmdir(WORK)
+    except OSError:
+        pass
+
+
+PLACEMENT_SHAPES_QUICK = [((),), (((),),), ((((),),),), ((), ())]
+PLACEMENT_SHAPES_THOROUGH = PLACEMENT_SHAPES_QUICK + [(((), ()),), (((((),),),),)]
+
+
+def count_objects(shape, props_each):
+    n = 0
+    for sub in shape:
+        n += 1 + props_each + count_objects(sub, props_each)
+    return n
+
+
+def naming_makers(tier, seed, scope='full', max_secs=None, per_shape=1):
+    """[(witness, make)] over the naming dimension.
+    1. placement (exhaustive): every placement shape x every position (each Section, each Property, i.e. every depth)
+       x every naming mode: exactly that object is special, all others have plain names;
+    2. uniform: every object of the document has the same mode;
+    3. mixtures: all forest shapes up to max_secs Sections, every object draws its mode at random;
+    4. the same documents saved to a file and loaded again (XML / JSON / YAML).
+    scope='reduced' keeps the dimension but fewer modes / shapes (for the expensive independence runs)."""
+    out = []
+    modes = [m for m in NAME_MODES if m != 'plain'] if scope == 'full' else list(REDUCED_MODES)
+    shapes = PLACEMENT_SHAPES_THOROUGH if (tier != 'quick' and scope == 'full') else PLACEMENT_SHAPES_QUICK
+    if scope != 'full':
+        shapes = [(((),),), ((), ())] if tier == 'quick' else PLACEMENT_SHAPES_QUICK
+    if max_secs is None:
+        max_secs = 3 if tier == 'quick' else 4
+    specs = []
+    for shape in shapes:
+        n = count_objects(shape, 1)
+        for pos in range(n):
+            for mode in modes:
+                specs.append((shape, 'one:%s@%d' % (mode, pos), (1,)))
+    for shape in shapes:
+        for mode in modes:
+            specs.append((shape, 'all:%s' % mode, (1, 2)))
+    for shape in h.tree_shapes(max_secs):
+        if not shape:
+            continue
+        for k in range(per_shape):
+            specs.append((shape, 'mix:%d' % k, (0, 1, 2)))
+
+    def maker(shape, naming, pps, fmt):
+        fill = 'c11-name-%s-%r-%s' % (seed, shape, naming)
+
+        def make():
+            rnd = random.Random(fill)
+            if naming.startswith('one:'):
+                mode, pos = naming[4:].split('@')
+                pos = int(pos)
+                mode_of = (lambda kind, k: mode if k == pos else 'plain')
+            elif naming.startswith('all:'):
+                mode_of = (lambda kind, k: naming[4:])
+            else:
+                mrnd = random.Random(fill + 'm')
+                mode_of = (lambda kind, k: 'plain' if mrnd.random() < 0.35 else mrnd.choice(NAME_MODES))
+            doc = build_named(shape, rnd, mode_of, props_per_sec=pps)
+            if fmt:
+                doc = via_file(doc, fmt)
+            return doc
+        return ({'shape': repr(shape), 'fill': fill, 'linked': False, 'naming': naming, 'loaded': fmt}, make)
+
+    for n, (shape, naming, pps) in enumerate(specs):
+        out.append(maker(shape, naming, pps, None))
+        if tier == 'quick' or scope != 'full':
+            fmts = [FORMATS[n % 3]] if (naming.startswith(('all:', 'mix:')) or n % 4 == 0) else []
+        else:
+            fmts = FORMATS if naming.startswith(('all:', 'mix:')) else [FORMATS[n % 3]]
+        for fmt in fmts:
+            wit, make = maker(shape, naming, pps, fmt)
+            if make() is not None:          # the library may refuse to write / read a document; then there is no original
+                out.append((wit, make))
+    return out
+
+
+# ---------------------------------------------------------------------------------------------
 # documents (re-buildable: independence checks destroy the original)
 # ---------------------------------------------------------------------------------------------
 
-def doc_makers(tier, seed, max_secs=None, per_shape=None):
+def doc_makers(tier, seed, max_secs=None, per_shape=None, naming='full'):
     """[(witness, make)] ; make() builds the same document (up to uuids) every time it is called."""
     if max_secs is None:
         max_secs = 4 if tier == 'quick' else 5
@@ -54,20 +361,26 @@ def doc_makers(tier, seed, max_secs=None, per_shape=None):
     for shape in h.tree_shapes(max_secs):
         for k in range(per_shape):
             fill = 'c11-%s-%r-%d' % (seed, shape, k)
-            out.append(({'shape': repr(shape), 'fill': fill, 'linked': False},
+            out.append(({'shape': repr(shape), 'fill': fill, 'linked': False, 'naming': 'plain', 'loaded': None},
                         (lambda shape=shape, fill=fill: h.build_doc(shape, random.Random(fill)))))
     # documents with a resolved link (a merged Section remembers its target in _merged)
     for shape in h.tree_shapes(min(max_secs, 4)):
         if len(shape) < 2:
             continue
-        fill = 'c11-link-%s-%r' % (seed, shape)
+        for naming in ('plain', 'all:unnamed'):
+            fill = 'c11-link-%s-%r-%s' % (seed, shape, naming)
 
-        def make(shape=shape, fill=fill):
-            doc = h.build_doc(shape, random.Random(fill), names=['a', 'ab', 'b', 'c', 'd', 'e'])
-            first, last = doc._sections[0], doc._sections[-1]
-            kind, _ = h.call(setattr, first, 'link', '/' + last._name)
-            return doc if kind == 'ret' else h.build_doc(shape, random.Random(fill))
-        out.append(({'shape': repr(shape), 'fill': fill, 'linked': True}, make))
+            def make(shape=shape, fill=fill, naming=naming):
+                if naming == 'plain':
+                    doc = h.build_doc(shape, random.Random(fill), names=['a', 'ab', 'b', 'c', 'd', 'e'])
+                else:
+                    doc = build_named(shape, random.Random(fill), lambda kind, k: 'unnamed')
+                first, last = doc._sections[0], doc._sections[-1]
+                kind, _ = h.call(setattr, first, 'link', '/' + last._name)
+                return doc if kind == 'ret' else h.build_doc(shape, random.Random(fill))
+            out.append(({'shape': repr(shape), 'fill': fill, 'linked': True, 'naming': naming, 'loaded': None}, make))
+    if naming:
+        out += naming_makers(tier, seed, scope=naming)
     return out
 
 
@@ -165,10 +478,99 @@ def valid_uuid(x):
 # run_clone
 # ---------------------------------------------------------------------------------------------
 
-def judge_clone(col, name, orig, copy, children, keep_id, witness, via='clone'):
-    """All clauses of the clone contract for one (original, copy)."""
+def own_attributes(o):
+    d = raw_snap(o, ids=False)
+    d.pop('sections', None)
+    d.pop('props', None)
+    return d
+
+
+def locate_difference(orig, copy, children, classes):
+    """Stable label of the first place where the copy differs from the original (ids ignored), comparing object by
+    object in list order: which attribute of which kind of object, and how the name of that object relates to ids."""
+    def rec(o, c, top):
+        where = 'copy root' if top else 'descendant'
+        if kind_of(o) != kind_of(c):
+            return 'kind of %s' % where
+        a, b = own_attributes(o), own_attributes(c)
+        for f in sorted(a):
+            if a[f] != b.get(f, '<missing>'):
+                return '%s of %s %s with %s' % (f.lstrip('_'), where, kind_of(o), classes.get(id(o), 'n/a'))
+        if top and not children:
+            return None
+        for attr, what in (('_sections', 'sections'), ('_props', 'properties')):
+            lo = list(list.__iter__(getattr(o, attr, [])))
+            lc = list(list.__iter__(getattr(c, attr, [])))
+            if len(lo) != len(lc):
+                return 'number of %s of %s %s' % (what, where, kind_of(o))
+            for x, y in zip(lo, lc):
+                r = rec(x, y, False)
+                if r:
+                    return r
+        return None
+    return rec(orig, copy, True) or 'other'
+
+
+def pairs(orig, copy):
+    """(original container, copy container) pairs, position by position, as long as the shapes agree."""
+    out = []
+
+    def rec(o, c):
+        if isinstance(o, BaseProperty) or kind_of(o) != kind_of(c):
+            return
+        out.append((o, c))
+        lo, lc = list(list.__iter__(o._sections)), list(list.__iter__(c._sections))
+        if len(lo) == len(lc):
+            for x, y in zip(lo, lc):
+                rec(x, y)
+    rec(orig, copy)
+    return out
+
+
+def lookup_problems(orig, copy, classes, names=None):
+    """Every sub-object of the copy must be found, through the public name lookup of the copy, under the name the
+    corresponding object has in the original, and what is found must have the content of that original object.
+    -> [(feature, detail)]"""
+    out = []
+    for o, c in pairs(orig, copy):
+        for attr, pub, what in (('_sections', 'sections', 'section'), ('_props', 'properties', 'property')):
+            if not hasattr(o, attr):
+                continue
+            for child in list.__iter__(getattr(o, attr)):
+                nm = names[id(child)] if names is not None else child._name
+                cls = '%s with %s' % (what, classes.get(id(child), 'n/a'))
+                kind, lst = h.call(getattr, c, pub)
+                if kind == 'exc':
+                    out.append((cls, 'copy.%s raised %r' % (pub, lst)))
+                    continue
+                kind, found = h.call(lambda: lst[nm])
+                if kind == 'exc':
+                    out.append((cls, 'looking up %r (name in the original) among the %s of the copied %s raised %r; '
+                                     'names there: %r' % (nm, pub, kind_of(c), found,
+                                                          [x._name for x in list.__iter__(getattr(c, attr))])))
+                    continue
+                if not any(found is x for x in list.__iter__(getattr(c, attr))):
+                    out.append((cls, 'lookup of %r returned %r which is not a child of the copied %s' % (nm, found, kind_of(c))))
+                    continue
+                kind, pubname = h.call(getattr, found, 'name')
+                if kind == 'exc' or pubname != nm:
+                    out.append((cls, 'object found under %r reports name %r' % (nm, pubname)))
+                d = h.diff(h.snap(child, ids=False, parent=False), h.snap(found, ids=False, parent=False))
+                if d:
+                    out.append((cls, 'object found under %r differs from the original object of that name: %s' % (nm, d)))
+                kind, isin = h.call(lambda: nm in lst)
+                if kind == 'exc' or isin is not True:
+                    out.append((cls, '%r in copy.%s gave %r' % (nm, pub, isin)))
+    return out
+
+
+def judge_clone(col, name, orig, copy, children, keep_id, witness, via='clone', classes=None, names=None):
+    """All clauses of the clone contract for one (original, copy).
+    names: id(obj) -> name of every object of the original recorded BEFORE the call (default: read now)."""
     k = kind_of(orig)
     base = {'kind': k, 'children': children, 'keep_id': keep_id}
+    if classes is None:
+        classes = name_classes(orig)
 
     def fail(clause, feature, detail):
         col.fail(check='%s/%s' % (name, clause), cls={'clause': clause, 'feature': feature},
@@ -185,12 +587,26 @@ def judge_clone(col, name, orig, copy, children, keep_id, witness, via='clone'):
         exp = without_children(exp)
     d = h.diff(h.freeze(exp), h.snap(copy, ids=False, parent=False))
     if d:
-        fail('equal-content' if children else 'equal-attributes', k,
+        fail('equal-content' if children else 'equal-attributes',
+             '%s: %s' % (k, locate_difference(orig, copy, children, classes)),
              'first difference original vs copy: %s' % d)
+    # the public name of the copy is the name of the original
+    if k != 'document':
+        want = names[id(orig)] if names is not None else orig._name
+        kind, got = h.call(getattr, copy, 'name')
+        if kind == 'exc' or got != want:
+            fail('name-kept', '%s with %s' % (k, classes.get(id(orig), 'n/a')),
+                 'copy.name is %r; the original is called %r' % (got, want))
     if not children:
         n = len(getattr(copy, '_sections', ())) + len(getattr(copy, '_props', ()))
         if n:
             fail('no-children', k, 'copy has %d children although children=False' % n)
+    else:
+        seen = set()
+        for feature, detail in lookup_problems(orig, copy, classes, names):
+            if feature not in seen:
+                seen.add(feature)
+                fail('lookup-by-original-name', '%s: %s' % (k, feature), detail)
     # every sub-object new
     shared = set(identities(orig)) & set(identities(copy))
     if shared:
@@ -218,14 +634,32 @@ def judge_clone(col, name, orig, copy, children, keep_id, witness, via='clone'):
         fail('ids-wellformed', k, 'copy has a malformed id: %r' % (ci,))
 
 
+def names_of(root):
+    """id(obj) -> name, for every Section / Property of the tree (recorded before a call)."""
+    secs, props = ([], []) if isinstance(root, BaseProperty) else h.walk(root)
+    objs = secs + props + ([root] if not isinstance(root, BaseDocument) else [])
+    return {id(o): o._name for o in objs}
+
+
+def clone_call(node, children, keep_id):
+    if isinstance(node, BaseProperty):
+        return h.call(node.clone, keep_id=keep_id)
+    return h.call(node.clone, children=children, keep_id=keep_id)
+
+
 def run_clone(tier, seed):
     name = 'C11.clone'
-    col = Col(name, rule='every node (Document, Section, Property) of every generated document (all forest shapes up to '
-                         'N Sections x random rich fillings, plus documents with a resolved link) as clone root x '
-                         'children in {True, False} x keep_id in {True, False}; distinct = (node kind, flags, '
-                         'has children, has nested values, depth)', exhaustive=False)
+    col = Col(name, rule='every node (Document, Section, Property) of every generated document as clone root x children in '
+                         '{True, False} x keep_id in {True, False}, and the copy of a copy; documents: all forest shapes up '
+                         'to N Sections x random rich fillings, documents with a resolved link, and the naming dimension '
+                         '(every placement shape x every position/depth x 18 relations between the name of an object and '
+                         'ids: unnamed in 6 ways, own id in other spellings, foreign uuids, id of another object; uniform; '
+                         'random mixtures; the same loaded from XML/JSON/YAML files); distinct = (node kind, flags, has '
+                         'children, has nested values, depth, name/id relation of the node, id-related names below, '
+                         'linked, loaded, generation)', exhaustive=False)
     for wit, make in doc_makers(tier, seed):
         doc = make()
+        classes = name_classes(doc)
         for node in all_nodes(doc):
             k = kind_of(node)
             flagsets = [(True, True), (True, False)] if k == 'property' else \
@@ -233,43 +667,64 @@ def run_clone(tier, seed):
             for children, keep_id in flagsets:
                 before_doc = h.snap(doc)
                 before_node = h.snap(node)
+                names = names_of(node)
                 w = dict(wit, node=node_path(node))
                 nested = k == 'property' and any(isinstance(v, list) for v in node._values)
                 haskids = bool(getattr(node, '_sections', None)) or bool(getattr(node, '_props', None))
-                col.case(cls_key=(k, children, keep_id, haskids, nested, wit['linked'], node_path(node).count('/')),
+                key = (k, children, keep_id, haskids, nested, wit['linked'], depth_of(node),
+                       classes.get(id(node), 'n/a'), subtree_trait(node, classes), bool(wit['loaded']))
+                col.case(cls_key=key + (1,),
                          sample='%s %s children=%s keep_id=%s' % (wit['shape'], node_path(node), children, keep_id))
-                if k == 'property':
-                    kind, copy = h.call(node.clone, keep_id=keep_id)
-                else:
-                    kind, copy = h.call(node.clone, children=children, keep_id=keep_id)
+                kind, copy = clone_call(node, children, keep_id)
                 if kind == 'exc':
                     col.fail(check=name + '/returns', cls={'clause': 'returns', 'feature': '%s %s' % (k, type(copy).__name__)},
                              witness=dict(w, children=children, keep_id=keep_id), detail='clone raised %r' % (copy,))
                 else:
-                    judge_clone(col, name, node, copy, children, keep_id, w)
+                    judge_clone(col, name, node, copy, children, keep_id, w, classes=classes, names=names)
                 d = h.diff(before_doc, h.snap(doc)) or h.diff(before_node, h.snap(node))
                 if d:
                     col.fail(check=name + '/original-untouched', cls={'clause': 'original-untouched', 'feature': k},
                              witness=dict(w, children=children, keep_id=keep_id),
                              detail='the call changed the original: %s' % d)
+                # the copy of a copy (the copy is a detached tree of its own; its names still refer to ids of the first tree)
+                if kind == 'ret' and isinstance(copy, type(node)) and (children or k == 'property'):
+                    col.case(cls_key=key + (2,))
+                    before_copy = h.snap(copy)
+                    names2 = names_of(copy)
+                    classes2 = name_classes(copy)
+                    kind2, copy2 = clone_call(copy, children, keep_id)
+                    w2 = dict(w, generation='copy of the copy')
+                    if kind2 == 'exc':
+                        col.fail(check=name + '/returns', cls={'clause': 'returns', 'feature': '%s %s' % (k, type(copy2).__name__)},
+                                 witness=dict(w2, children=children, keep_id=keep_id), detail='clone of the copy raised %r' % (copy2,))
+                    else:
+                        judge_clone(col, name, copy, copy2, children, keep_id, w2, classes=classes2, names=names2)
+                    d = h.diff(before_copy, h.snap(copy)) or h.diff(before_doc, h.snap(doc))
+                    if d:
+                        col.fail(check=name + '/original-untouched', cls={'clause': 'original-untouched', 'feature': k},
+                                 witness=dict(w2, children=children, keep_id=keep_id),
+                                 detail='cloning the copy changed the copy or the first original: %s' % d)
     _templates_part(col, name, tier, seed)
+    cleanup_work()
     return col.result()
 
 
 def _templates_part(col, name, tier, seed):
     """TemplateHandler.clone_section(url, name, children, keep_id) is the same contract on a loaded template."""
     import odml.templates as templates
-    shutil.rmtree(WORK, ignore_errors=True)
-    os.makedirs(os.path.join(WORK, 'tmp'))
+    tdir = os.path.join(WORK, 'tpl-%d' % os.getpid())
+    shutil.rmtree(tdir, ignore_errors=True)
+    os.makedirs(os.path.join(tdir, 'tmp'))
     old_tmp = tempfile.tempdir
-    tempfile.tempdir = os.path.join(WORK, 'tmp')
+    tempfile.tempdir = os.path.join(tdir, 'tmp')
     try:
-        makers = [m for m in doc_makers(tier, seed, max_secs=3, per_shape=1) if not m[0]['linked']]
+        makers = [m for m in doc_makers(tier, seed, max_secs=3, per_shape=1, naming='reduced')
+                  if not m[0]['linked'] and not m[0]['loaded']]
         for n, (wit, make) in enumerate(makers):
             doc = make()
             if not doc._sections:
                 continue
-            fname = os.path.join(WORK, 'tpl_%d.xml' % n)
+            fname = os.path.join(tdir, 'tpl_%d.xml' % n)
             kind, _ = h.call(odml.save, doc, fname, 'XML')
             if kind == 'exc':
                 continue
@@ -279,9 +734,9 @@ def _templates_part(col, name, tier, seed):
                 for children in (True, False):
                     for keep_id in (True, False):
                         kind, copy = h.call(handler.clone_section, url, top._name, children, keep_id)
-                        col.case(cls_key=('template', children, keep_id, bool(top._sections), bool(top._props)))
                         w = dict(wit, node='/' + top._name, via='TemplateHandler.clone_section')
                         if kind == 'exc':
+                            col.case(cls_key=('template', children, keep_id, bool(top._sections), bool(top._props)))
                             col.fail(check=name + '/returns', cls={'clause': 'returns', 'feature': 'template %s' % type(copy).__name__},
                                      witness=w, detail='clone_section raised %r' % (copy,))
                             continue
@@ -289,10 +744,14 @@ def _templates_part(col, name, tier, seed):
                         orig = next((s for s in list.__iter__(loaded._sections) if s._name == top._name), None)
                         if orig is None:
                             continue
-                        judge_clone(col, name, orig, copy, children, keep_id, w)
+                        classes = name_classes(loaded)
+                        col.case(cls_key=('template', children, keep_id, bool(top._sections), bool(top._props),
+                                          classes.get(id(orig), 'n/a'), subtree_trait(orig, classes)))
+                        judge_clone(col, name, orig, copy, children, keep_id, w, classes=classes)
+            os.remove(fname)
     finally:
         tempfile.tempdir = old_tmp
-        shutil.rmtree(WORK, ignore_errors=True)
+        shutil.rmtree(tdir, ignore_errors=True)
 
 
 # ---------------------------------------------------------------------------------------------
@@ -308,12 +767,42 @@ def expected_leaf(chain):
     return rec(0)
 
 
+def chain_lookup_problems(chain, node, res, classes):
+    """Walk the result from its root by the names of the original chain (public lookups); every Property of every
+    Section on the chain must be found under its original name with its original content and id.
+    -> [(feature, detail)]"""
+    out = []
+    cur = res
+    for sec in chain[1:]:
+        cls = 'section with %s' % classes.get(id(sec), 'n/a')
+        kind, found = h.call(lambda: cur.sections[sec._name])
+        if kind == 'exc' or not isinstance(found, BaseSection):
+            out.append((cls, 'looking up chain Section %r in the result gave %r' % (sec._name, found)))
+            return out
+        if found.name != sec._name or found.id != sec._id:
+            out.append((cls, 'chain Section %r / id %r is %r / %r in the result' % (sec._name, sec._id, found.name, found.id)))
+        for p in list.__iter__(sec._props):
+            pcls = 'property with %s' % classes.get(id(p), 'n/a')
+            kind, fp = h.call(lambda: found.properties[p._name])
+            if kind == 'exc' or not isinstance(fp, BaseProperty):
+                out.append((pcls, 'looking up Property %r of chain Section %r in the result gave %r' % (p._name, sec._name, fp)))
+                continue
+            d = h.diff(h.snap(p, ids=True, parent=False), h.snap(fp, ids=True, parent=False))
+            if d or fp.name != p._name:
+                out.append((pcls, 'Property %r found in the result differs from the original: %s' % (p._name, d)))
+        cur = found
+    return out
+
+
 def run_export_leaf(tier, seed):
     name = 'C11.export_leaf'
-    col = Col(name, rule='every Section and every Property of every generated document as export root; distinct = '
-                         '(node kind, depth, siblings present, properties on the chain)', exhaustive=False)
+    col = Col(name, rule='every Section and every Property of every generated document (same documents as C11.clone, '
+                         'including the naming dimension and documents loaded from files) as export root; distinct = '
+                         '(node kind, depth, siblings present, properties on the chain, name/id relation of the node, '
+                         'id-related names on the chain, linked, loaded)', exhaustive=False)
     for wit, make in doc_makers(tier, seed):
         doc = make()
+        classes = name_classes(doc)
         secs, props = h.walk(doc)
         for node in secs + props:
             k = kind_of(node)
@@ -326,8 +815,12 @@ def run_export_leaf(tier, seed):
             exp = h.freeze(expected_leaf(chain))
             before = h.snap(doc)
             w = dict(wit, node=node_path(node))
+            on_chain = [c for c in chain[1:]] + [p for c in chain[1:] for p in list.__iter__(c._props)]
             col.case(cls_key=(k, len(chain), any(len(c._sections) > 1 for c in chain),
-                              sum(len(getattr(c, '_props', ())) for c in chain) > 0, wit['linked']),
+                              sum(len(getattr(c, '_props', ())) for c in chain) > 0, wit['linked'],
+                              classes.get(id(node), 'n/a'),
+                              any(classes.get(id(o)) not in ('plain-name', 'odd-name') for o in on_chain if o is not node),
+                              bool(wit['loaded'])),
                      sample='%s %s' % (wit['shape'], node_path(node)))
             kind, res = h.call(node.export_leaf)
             if kind == 'exc':
@@ -342,6 +835,13 @@ def run_export_leaf(tier, seed):
             if d:
                 col.fail(check=name + '/exact-chain', cls={'clause': 'exact-chain', 'feature': k}, witness=w,
                          detail='first difference expected chain vs result: %s' % d)
+            seen = set()
+            for feature, detail in chain_lookup_problems(chain, node, res, classes):
+                if feature not in seen:
+                    seen.add(feature)
+                    col.fail(check=name + '/lookup-by-original-name',
+                             cls={'clause': 'lookup-by-original-name', 'feature': '%s: %s' % (k, feature)},
+                             witness=w, detail=detail)
             shared = set(identities(doc)) & set(identities(res))
             if shared:
                 labels = identities(doc)
@@ -355,6 +855,7 @@ def run_export_leaf(tier, seed):
             if d:
                 col.fail(check=name + '/original-untouched', cls={'clause': 'original-untouched', 'feature': k}, witness=w,
                          detail='the call changed the original: %s' % d)
+    cleanup_work()
     return col.result()
 
 
